@@ -35,7 +35,7 @@ I(n) == [k |-> "int", n |-> n]
 Lt(i) == [k |-> "lit", n |-> i]
 ArgVal(d) == CASE d.k = "p" -> pool[d.n] [] d.k = "int" -> IntV(d.n) [] OTHER -> LitVals[d.n]
 
-\* ---- initial pools (three variants).  Each is a sequence of construction operations executed by
+\* ---- initial pools (four variants).  Each is a sequence of construction operations executed by
 \* the same Step machinery, so the harness builds the pool exactly as the specification does.
 InitOps(v) ==
   CASE v = 1 -> << [op |-> "list", a |-> <<I(1), I(2), I(3)>>, dst |-> 1],
@@ -53,6 +53,12 @@ InitOps(v) ==
                    [op |-> "cons", a |-> <<P(2), P(2)>>, dst |-> 3],
                    [op |-> "list", a |-> <<P(3), P(2), I(7)>>, dst |-> 4],     \* association list
                    [op |-> "vector", a |-> <<P(4), Lt(6), Lt(4)>>, dst |-> 1] >>
+    \* prefix-related vectors and lists (equal?, member, assoc must not stop at the shorter one)
+    [] v = 4 -> << [op |-> "vector", a |-> <<I(1), I(2)>>, dst |-> 1],
+                   [op |-> "vector", a |-> <<I(1), I(2), I(3)>>, dst |-> 2],
+                   [op |-> "list", a |-> <<I(1), I(2)>>, dst |-> 3],
+                   [op |-> "list", a |-> <<I(1), I(2), I(3)>>, dst |-> 4],
+                   [op |-> "equal?", a |-> <<P(1), P(2)>>, dst |-> 0] >>
 
 -----------------------------------------------------------------------------
 \* objects reachable from a value (to keep structures acyclic: rendering a cycle never ends)
@@ -154,7 +160,7 @@ Apply(op, a, dst) ==
                            share |-> ShareMatrix(pool2, N, hp2)])
 
 Init ==
-  /\ variant \in {1, 2, 3}
+  /\ variant \in {1, 2, 3, 4}
   /\ hp = <<>>
   /\ pool = [k \in 1..N |-> NilV]
   /\ hist = <<>>
